@@ -82,6 +82,13 @@ CONSTEXPR = [
     H + "@constexpr\ndef f(n):\n    return f(n)\ndb.Setting = f(1)\n",
     H + "@constexpr\ndef f(n):\n    import os\n    os.fork()\n    return 1\ndb.Setting = f(1)\n",
 ]
+# editing histories (the in-game editor compiles on every keystroke, in one process): the same failing constexpr call first
+# far down in a long text, then in a shorter text -- each verdict must describe the text it was given
+_PAD = "".join(f"# note {i}\n" for i in range(18))
+for _body in ("    while n > 0:\n        n += 1\n    return n\n", "    return [1, 2][n]\n", "    return undefined_name + n\n"):
+    CONSTEXPR.append(H + _PAD + "@constexpr\ndef g(n):\n" + _body + "db.Setting = g(5)\n")
+    CONSTEXPR.append(H + "@constexpr\ndef g(n):\n" + _body + "db.Setting = g(5)\n")
+    CONSTEXPR.append(H + "x = 1\n@constexpr\ndef g(n):\n" + _body + "y = 2\ndb.Setting = g(5)\n")
 
 
 def corpus(seed, n):
@@ -144,8 +151,9 @@ def verdict_corpus(rep, tier, seed):
             continue
         seen.add(sig)
         src = r["src"]
-        rep.add(Ob(f"compiler.compile_code#returns_a_verdict_promptly_and_cleans_up[{r['kind']}:{abs(hash(str(src))) % 100000}]", VIOLATED, kind="bounded", backend="native",
-                   bound=bound, target="compiler.compile_code", replayed=True, witness={"source": src if not isinstance(src, str) or len(src) < 3000 else src[:200] + f"...({len(src)} chars)", "options": r["options"]},
+        rep.add(Ob(f"compiler.compile_code#returns_a_verdict_promptly_and_cleans_up[{r['kind']}:{__import__('zlib').crc32(str(src).encode()) % 100000}]", VIOLATED, kind="bounded", backend="native",
+                   bound=bound, target="compiler.compile_code", replayed=True, witness={"source": src if not isinstance(src, str) or len(src) < 3000 else src[:200] + f"...({len(src)} chars)", "options": r["options"],
+                            **({"compiled_before_in_the_same_process": CONSTEXPR[:CONSTEXPR.index(src)]} if r["kind"] == "constexpr" and src in CONSTEXPR else {})},
                    detail={"observed": r["what"]}))
     rep.bounded.update(evaluations=len(allr), distinct_nontrivial=len({r.get("kind") for r in allr}) + verdicts.get("error", 0),
                        rule="texts: prefixes / single-character deletions / insertions of every test and example source, noise strings, deep nesting, recursion, two-module inputs, constexpr bodies (failing, printing, non-terminating, exiting, forking); non-trivial = yields an error verdict or belongs to a distinct kind")
